@@ -1,2 +1,187 @@
+//! `store` (C15): a history of add / push operations over all tables of a data object (data, instructions,
+//! jump table, symbol table, registers, input values, frames), on SimpleGarnishData and on BasicGarnishData with the
+//! given growth settings; after EVERY operation every address returned so far is read back.
+//!
+//! case: {"settings": null | {"ins":[init,"add"|"mul",k], "jmp":.., "sym":.., "expr":.., "data":.., "custom":..},
+//!        "ops":[{"op":"val","d":desc-with-{"t":"ref","i":k}} | {"op":"ins","i":"Add","d":n|null} | {"op":"jump","v":n}
+//!               | {"op":"symname","n":"abc"} | {"op":"reg","i":k} | {"op":"popreg"} | {"op":"pushval","i":k} | {"op":"popval"}
+//!               | {"op":"frame","v":n} | {"op":"popframe"}]}
+use crate::guarded;
+use crate::num::instruction_of;
+use crate::store::{BasicN, Host, SimpleD, Store};
+use crate::val::{make, show};
+use garnish_lang::simple::{NoOpCompanion, ReallocationStrategy, StorageSettings};
 use serde_json::{json, Value};
-pub fn store_case(_c: &Value) -> Value { json!({}) }
+
+fn e<E: std::fmt::Display>(x: E) -> String {
+    crate::run::msg_key(&format!("{}", x))
+}
+
+fn make_ref<S: Store>(d: &mut S, v: &Value, vals: &[usize]) -> Result<usize, String> {
+    let t = v["t"].as_str().unwrap_or("");
+    match t {
+        "ref" => vals.get(v["i"].as_u64().unwrap_or(u64::MAX) as usize).cloned().ok_or_else(|| format!("unknown value index {}", v["i"])),
+        "pair" | "concat" | "range" | "slice" | "partial" => {
+            let l = make_ref(d, &v["l"], vals)?;
+            let r = make_ref(d, &v["r"], vals)?;
+            match t {
+                "pair" => d.add_pair((l, r)),
+                "concat" => d.add_concatenation(l, r),
+                "range" => d.add_range(l, r),
+                "slice" => d.add_slice(l, r),
+                _ => d.add_partial(l, r),
+            }
+            .map_err(e)
+        }
+        "list" => {
+            let mut addrs = vec![];
+            for it in v["v"].as_array().cloned().unwrap_or_default() {
+                addrs.push(make_ref(d, &it, vals)?);
+            }
+            let mut l = d.start_list(addrs.len()).map_err(e)?;
+            for a in addrs {
+                l = d.add_to_list(l, a).map_err(e)?;
+            }
+            d.end_list(l).map_err(e)
+        }
+        _ => make(d, v),
+    }
+}
+
+fn settings_of(v: &Value) -> StorageSettings {
+    let init = v[0].as_u64().unwrap_or(10) as usize;
+    let k = v[2].as_u64().unwrap_or(10) as usize;
+    let strat = if v[1].as_str() == Some("mul") { ReallocationStrategy::Multiplicative(k) } else { ReallocationStrategy::FixedSize(k) };
+    StorageSettings::new(init, usize::MAX, strat)
+}
+
+fn history<S: Store>(mut d: S, case: &Value) -> Value {
+    let ops = case["ops"].as_array().cloned().unwrap_or_default();
+    let mut vals: Vec<usize> = vec![]; // address of every value added, by value index
+    let mut ins: Vec<usize> = vec![];
+    let mut jumps: Vec<usize> = vec![];
+    let mut names: Vec<String> = vec![];
+    let mut events = vec![];
+    for op in ops.iter() {
+        let name = op["op"].as_str().unwrap_or("");
+        let r = guarded(|| -> Result<i64, String> {
+            match name {
+                "val" => {
+                    let a = make_ref(&mut d, &op["d"], &vals)?;
+                    vals.push(a);
+                    Ok(a as i64)
+                }
+                "ins" => {
+                    let i = instruction_of(op["i"].as_str().unwrap_or("")).ok_or("unknown instruction")?;
+                    let a = d.push_instruction(i, op["d"].as_u64().map(|x| x as usize)).map_err(e)?;
+                    ins.push(a);
+                    Ok(a as i64)
+                }
+                "jump" => {
+                    let a = d.get_jump_table_len();
+                    d.push_to_jump_table(op["v"].as_u64().unwrap_or(0) as usize).map_err(e)?;
+                    jumps.push(a);
+                    Ok(a as i64)
+                }
+                "symname" => {
+                    let n = op["n"].as_str().unwrap_or("x").to_string();
+                    crate::val::sym_of_name(&n);
+                    let a = d.parse_add_symbol(&n).map_err(e)?;
+                    vals.push(a);
+                    names.push(n);
+                    Ok(a as i64)
+                }
+                "reg" => {
+                    let a = *vals.get(op["i"].as_u64().unwrap_or(u64::MAX) as usize).ok_or("unknown value index")?;
+                    d.push_register(a).map_err(e)?;
+                    Ok(-1)
+                }
+                "popreg" => Ok(d.pop_register().map_err(e)?.map(|x| x as i64).unwrap_or(-1)),
+                "pushval" => {
+                    let a = *vals.get(op["i"].as_u64().unwrap_or(u64::MAX) as usize).ok_or("unknown value index")?;
+                    d.push_value_stack(a).map_err(e)?;
+                    Ok(-1)
+                }
+                "popval" => Ok(d.pop_value_stack().map(|x| x as i64).unwrap_or(-1)),
+                "frame" => {
+                    d.push_frame(op["v"].as_u64().unwrap_or(0) as usize).map_err(e)?;
+                    Ok(-1)
+                }
+                "popframe" => Ok(d.pop_frame().map_err(e)?.map(|x| x as i64).unwrap_or(-1)),
+                _ => Err(format!("unknown op {}", name)),
+            }
+        });
+        let mut ev = json!({"op": name});
+        match r {
+            Err(m) => {
+                ev["status"] = json!("panic");
+                ev["msgk"] = json!(m);
+                events.push(ev);
+                break;
+            }
+            Ok(Err(m)) => {
+                ev["status"] = json!("err");
+                ev["msgk"] = json!(m);
+                events.push(ev);
+                break;
+            }
+            Ok(Ok(ret)) => {
+                ev["status"] = json!("ok");
+                ev["ret"] = json!(ret);
+            }
+        }
+        // read back every address returned so far, through the interface only
+        let rb = guarded(|| {
+            json!({
+                "addrs": vals.iter().map(|a| *a as i64).collect::<Vec<_>>(),
+                "vals": vals.iter().map(|a| show(&d, *a, 0)).collect::<Vec<_>>(),
+                "ins": ins.iter().map(|a| match d.get_instruction(*a) { Some((i, x)) => json!({"i": format!("{:?}", i), "d": x.map(|y| y as i64).unwrap_or(-1)}), None => json!({"i": "NONE", "d": -1}) }).collect::<Vec<_>>(),
+                "jumps": jumps.iter().map(|a| d.get_from_jump_table(*a).map(|x| x as i64).unwrap_or(-1)).collect::<Vec<_>>(),
+                "regs": d.reg_addrs().iter().map(|a| *a as i64).collect::<Vec<_>>(),
+                "stack": d.val_addrs().iter().map(|a| *a as i64).collect::<Vec<_>>(),
+                "frames": d.frame_rets().iter().map(|a| *a as i64).collect::<Vec<_>>(),
+                "names": names.iter().map(|n| match d.sym_name(garnish_lang::simple::symbol_value(n)) { Some(x) => if &x == n { "same" } else { "other" }, None => "gone" }).collect::<Vec<_>>(),
+                "ilen": d.get_instruction_len(), "jlen": d.get_jump_table_len(),
+            })
+        });
+        match rb {
+            Ok(v) => ev["rb"] = v,
+            Err(m) => {
+                ev["status"] = json!("readback-panic");
+                ev["msgk"] = json!(m);
+                events.push(ev);
+                break;
+            }
+        }
+        events.push(ev);
+    }
+    json!({"store": S::name(), "events": events})
+}
+
+pub fn store_case(case: &Value) -> Value {
+    let mut o = case.clone();
+    let mut runs = vec![];
+    if case["settings"].is_null() {
+        runs.push(match guarded(|| history(SimpleD::fresh(Host::default()), case)) {
+            Ok(v) => v,
+            Err(m) => json!({"store": "simple", "status": "panic", "msgk": m, "events": []}),
+        });
+    }
+    let basic = guarded(|| {
+        let d = if case["settings"].is_null() {
+            BasicN::fresh(Host::default())
+        } else {
+            let s = &case["settings"];
+            BasicN::new_with_settings(settings_of(&s["ins"]), settings_of(&s["jmp"]), settings_of(&s["sym"]), settings_of(&s["expr"]), settings_of(&s["data"]), settings_of(&s["custom"]), NoOpCompanion::new())
+                .map_err(|x| format!("{}", x))?
+        };
+        Ok::<Value, String>(history(d, case))
+    });
+    runs.push(match basic {
+        Ok(Ok(v)) => v,
+        Ok(Err(m)) => json!({"store": "basic", "status": "newerr", "msgk": crate::run::msg_key(&m), "events": []}),
+        Err(m) => json!({"store": "basic", "status": "panic", "msgk": m, "events": []}),
+    });
+    o["runs"] = json!(runs);
+    o
+}
